@@ -45,7 +45,6 @@ theorem c26_header_roundtrip (h : Header) (max : Int) (hm : GoInt max) (hv : Val
 /-- the decoder looks at the first `HeaderSize` bytes only -/
 theorem decodeHeader_append (a b : Bytes) (max : Int) (ha : a.length = HeaderSize) :
     decodeHeader (a ++ b) max = decodeHeader a max := by
-  have hs : HeaderSize = 24 := rfl
   unfold decodeHeader
   rw [rd_append_left a b headerMagicOffset 2 (by rw [ha]; decide),
       rd_append_left a b headerVersionOffset 1 (by rw [ha]; decide),
@@ -56,7 +55,9 @@ theorem decodeHeader_append (a b : Bytes) (max : Int) (ha : a.length = HeaderSiz
       rd_append_left a b headerServiceIDOffset 2 (by rw [ha]; decide),
       rd_append_left a b headerRequestIDOffset 8 (by rw [ha]; decide),
       rd_append_left a b headerBodyLenOffset 4 (by rw [ha]; decide)]
-  simp [ha, hs]
+  have e1 : decide ((a ++ b).length < HeaderSize) = false := by simp [ha]
+  have e2 : decide (a.length < HeaderSize) = false := by simp [ha]
+  rw [e1, e2]
 
 /-- header_roundtrip on a stream: whatever follows the header does not matter -/
 theorem c26_header_roundtrip_stream (h : Header) (rest : Bytes) (max : Int) (hm : GoInt max) (hv : Valid h max) :
@@ -89,17 +90,17 @@ theorem c26_header_accepts_only (bs : Bytes) (max : Int) (hm : GoInt max) (h : H
   injection hd with hd
   subst hd
   simp only [Bool.not_eq_false, Bool.not_eq_true] at hkind hprio hbody
-  have hbl : rd bs headerBodyLenOffset 4 < 2 ^ 32 := by
-    simp only [rd, headerBodyLenOffset]
-    have := (byteAt bs 16).toNat_lt; have := (byteAt bs 17).toNat_lt
-    have := (byteAt bs 18).toNat_lt; have := (byteAt bs 19).toNat_lt
-    omega
-  have hb := (bodyExceedsMax_iff _ max hbl hm).not.mp (by simpa using hbody)
+  have hbl : rd bs headerBodyLenOffset 4 < 2 ^ 32 := rd_lt bs _ 4
+  have hb : ¬ (max < 0 ∨ max < (rd bs headerBodyLenOffset 4 : Int)) := fun hx => by
+    have := (bodyExceedsMax_iff _ max hbl hm).mpr hx
+    rw [hbody] at this; cases this
   rw [c26_valid_ranges.1] at hkind
   rw [c26_valid_ranges.2] at hprio
-  refine ⟨by omega, by omega, by omega, by omega, by omega, rfl, rfl, rfl, rfl, rfl, ?_, ?_, by omega, by omega⟩
+  refine ⟨by omega, by omega, by omega, by omega, by omega, rfl, rfl, rfl, rfl, rfl, ?_, ?_, by omega, ?_⟩
   · simpa using hkind
   · simpa using hprio
+  · show ((rd bs headerBodyLenOffset 4 : Nat) : Int) ≤ max
+    omega
 
 /-- **header_rejects**, field by field: a short buffer, a wrong magic, version, flags byte or
     reserved word, a kind outside 1..5, a priority outside 1..4, a negative limit or a declared
@@ -214,24 +215,29 @@ theorem c26_frame_roundtrip (h : Header) (body rest : Bytes) (max : Int) (hm : G
     have hne : ¬ ((encodeHeader { h with bodyLen := body.length } ++ body ++ rest).length = 0) := by
       simp [hl, hs]
     have hge : ¬ ((encodeHeader { h with bodyLen := body.length } ++ body ++ rest).length < HeaderSize) := by
-      simp [hl, hs]; omega
+      simp [hl, hs]
     simp only [hne, hge, if_false]
     by_cases hz : body.length = 0
     · have : body = [] := List.eq_nil_of_length_eq_zero hz
       subst this
-      simp [hl]
-    · have h3 : ¬ ((body ++ rest).length = 0) := by simp; omega
-      have h4 : ¬ ((body ++ rest).length < body.length) := by simp
+      simp [enc_len]
+    · have h3 : ¬ ((body ++ rest).length = 0) := by
+        intro hx; rw [List.length_append] at hx; omega
+      have h4 : ¬ (body.length + rest.length < body.length) := by omega
       simp [hz, h3, h4, hl]
 
 -- non-vacuity
 example : Valid ⟨3, 3, 42, 99, 1234⟩ 4096 := by decide
-example : GoInt 4096 := by decide
-example : decodeHeader (encodeHeader ⟨3, 3, 42, 99, 1234⟩) 4096 = .ok ⟨3, 3, 42, 99, 1234⟩ := by decide
+example : GoInt 4096 := by unfold GoInt; omega
+example : decodeHeader (encodeHeader ⟨3, 3, 42, 99, 1234⟩) 4096 = .ok ⟨3, 3, 42, 99, 1234⟩ :=
+  c26_header_roundtrip _ _ (by unfold GoInt; omega) (by decide)
 example : ∃ e, decodeHeader ((encodeHeader ⟨3, 3, 42, 99, 1234⟩).set 0 0) 4096 = .error e :=
-  c26_header_rejects _ _ (by decide) (by decide)
-example : decodeHeader (encodeHeader ⟨3, 9, 42, 99, 1234⟩) 4096 = .error .invalidPriority := by decide
-example : decodeHeader (encodeHeader ⟨3, 3, 42, 99, 1234⟩) 1233 = .error .msgTooLarge := by decide
+  c26_header_rejects _ _ (by unfold GoInt; omega) (by decide)
+example : decodeHeader (encodeHeader ⟨3, 9, 42, 99, 1234⟩) 4096 = .error .invalidPriority := by rfl
+example : decodeHeader (encodeHeader ⟨3, 3, 42, 99, 1234⟩) 1233 = .error .msgTooLarge := by rfl
 example : (readFrame (encodeHeader ⟨3, 3, 0, 0, 4000000000⟩) 1024).alloc = 0 := by decide
+example : ∃ out, writeFrame ⟨3, 3, 42, 99, 0⟩ [1, 2, 3] 4096 = .ok out :=
+  let ⟨out, h, _⟩ := c26_frame_roundtrip ⟨3, 3, 42, 99, 0⟩ [1, 2, 3] [] 4096 (by unfold GoInt; omega) (by decide)
+  ⟨out, h⟩
 
 end WK.C26
